@@ -17,80 +17,232 @@ import (
 // satisfies f(a|b) = f(a)|f(b) and f(0) = 0); anything else in the data path
 // leaves the conversion undecided.
 
-// c19Bitwise checks that f's data path uses only bit-preserving operations.
+// c19Bitwise checks that f's data path uses only operations that commute
+// with bitwise or (moves, constant shifts, or, and with a constant, integer
+// conversions, float bit casts) and that indices and lengths are free of
+// data.  It returns why not, or "".
 func c19Bitwise(f *kit.Func) string {
 	info := f.Info()
+	isConst := func(e ast.Expr) bool {
+		tv, ok := info.Types[e]
+		return ok && tv.Value != nil
+	}
+	// single definitions of int locals
+	defs := map[types.Object][]ast.Expr{}
+	keys := map[types.Object]bool{}
+	ast.Inspect(f.Body, func(n ast.Node) bool {
+		switch x := n.(type) {
+		case *ast.AssignStmt:
+			for i, l := range x.Lhs {
+				o := kit.ObjOf(info, l)
+				if o == nil {
+					continue
+				}
+				if len(x.Lhs) == len(x.Rhs) && (x.Tok == token.DEFINE || x.Tok == token.ASSIGN) {
+					defs[o] = append(defs[o], x.Rhs[i])
+				} else {
+					defs[o] = append(defs[o], nil, nil)
+				}
+			}
+		case *ast.IncDecStmt:
+			if o := kit.ObjOf(info, x.X); o != nil {
+				defs[o] = append(defs[o], nil, nil)
+			}
+		case *ast.RangeStmt:
+			if x.Key != nil {
+				if o := kit.ObjOf(info, x.Key); o != nil {
+					keys[o] = true
+				}
+			}
+		case *ast.ForStmt:
+			if cl := f.CanonLoop(x); cl != nil && cl.Key != nil {
+				if o := kit.ObjOf(info, cl.Key); o != nil {
+					keys[o] = true
+				}
+			}
+		}
+		return true
+	})
+	var indexSafe func(e ast.Expr, depth int) bool
+	indexSafe = func(e ast.Expr, depth int) bool {
+		e = ast.Unparen(e)
+		if isConst(e) {
+			return true
+		}
+		switch x := e.(type) {
+		case *ast.Ident:
+			o := kit.ObjOf(info, x)
+			if o == nil {
+				return false
+			}
+			if keys[o] {
+				return true
+			}
+			bt := mbBasicInt(o.Type())
+			if bt == nil || bt.Kind() != types.Int || depth > 3 {
+				return false
+			}
+			d := defs[o]
+			return len(d) == 1 && d[0] != nil && indexSafe(d[0], depth+1)
+		case *ast.BinaryExpr:
+			switch x.Op {
+			case token.ADD, token.SUB, token.MUL, token.QUO, token.REM:
+				return indexSafe(x.X, depth) && indexSafe(x.Y, depth)
+			}
+		case *ast.CallExpr:
+			if bi, ok := kit.Callee(info, x).(*types.Builtin); ok && (bi.Name() == "len" || bi.Name() == "cap") && len(x.Args) == 1 {
+				_, isId := ast.Unparen(x.Args[0]).(*ast.Ident)
+				return isId
+			}
+		}
+		return false
+	}
 	why := ""
-	var visit func(n ast.Node, inIndex bool)
-	visit = func(n ast.Node, inIndex bool) {
-		if n == nil || why != "" {
+	fail := func(n ast.Node, what string) {
+		if why == "" {
+			why = fmt.Sprintf("%s `%s`", what, trunc(f.Str(n), 40))
+		}
+	}
+	var expr func(e ast.Expr)
+	expr = func(e ast.Expr) {
+		if e == nil || why != "" {
 			return
 		}
-		switch x := n.(type) {
-		case *ast.FuncLit, *ast.GoStmt, *ast.DeferStmt, *ast.SelectStmt, *ast.SwitchStmt, *ast.TypeSwitchStmt:
-			why = fmt.Sprintf("`%s` is not followed", trunc(f.Str(n), 40))
+		e = ast.Unparen(e)
+		if isConst(e) {
 			return
-		case *ast.IfStmt:
-			why = "the result depends on a branch"
-			return
+		}
+		switch x := e.(type) {
+		case *ast.Ident:
 		case *ast.IndexExpr:
-			visit(x.X, inIndex)
-			visit(x.Index, true)
-			return
-		case *ast.SliceExpr:
-			why = "sub-slices are not followed"
-			return
+			if _, isId := ast.Unparen(x.X).(*ast.Ident); !isId {
+				fail(x, "indexed operand")
+				return
+			}
+			if !indexSafe(x.Index, 0) {
+				fail(x.Index, "index depends on more than the counter:")
+			}
 		case *ast.BinaryExpr:
-			if !inIndex {
-				switch x.Op {
-				case token.SHL, token.SHR, token.OR, token.AND, token.LSS, token.LEQ, token.GTR, token.GEQ, token.NEQ, token.EQL:
-				case token.ADD, token.SUB, token.MUL, token.QUO, token.REM:
-					// arithmetic is fine on lengths and counters, not on data
-					if bt := mbBasicInt(info.TypeOf(x)); bt == nil || bt.Kind() != types.Int {
-						why = fmt.Sprintf("arithmetic `%s` on the data", trunc(f.Str(x), 40))
-						return
-					}
-				default:
-					why = fmt.Sprintf("operator %s on the data", x.Op)
-					return
+			switch x.Op {
+			case token.SHL, token.SHR:
+				if !isConst(x.Y) {
+					fail(x, "variable shift")
+				}
+				expr(x.X)
+			case token.OR:
+				expr(x.X)
+				expr(x.Y)
+			case token.AND:
+				if !isConst(x.X) && !isConst(x.Y) {
+					fail(x, "and of two variables")
+				}
+				expr(x.X)
+				expr(x.Y)
+			default:
+				if !indexSafe(x, 0) {
+					fail(x, "operator on the data:")
 				}
 			}
 		case *ast.CallExpr:
-			if tv, ok := info.Types[x.Fun]; ok && tv.IsType() {
-				break
+			if tv, ok := info.Types[x.Fun]; ok && tv.IsType() && len(x.Args) == 1 {
+				expr(x.Args[0])
+				return
 			}
-			switch q := kit.QualName(kit.Callee(info, x)); q {
+			callee := kit.Callee(info, x)
+			switch kit.QualName(callee) {
 			case "math.Float32bits", "math.Float32frombits":
-			default:
-				if bi, ok := kit.Callee(info, x).(*types.Builtin); ok && (bi.Name() == "len" || bi.Name() == "make") {
-					for _, a := range x.Args {
-						visit(a, true)
+				expr(x.Args[0])
+				return
+			}
+			if bi, ok := callee.(*types.Builtin); ok {
+				switch bi.Name() {
+				case "len", "cap":
+					if !indexSafe(x, 0) {
+						fail(x, "length of")
+					}
+					return
+				case "make":
+					for _, a := range x.Args[1:] {
+						if !indexSafe(a, 0) {
+							fail(a, "size depends on more than lengths:")
+						}
 					}
 					return
 				}
-				why = fmt.Sprintf("call `%s` is not followed", trunc(f.Str(x), 40))
+			}
+			fail(x, "call is not followed:")
+		default:
+			fail(e, "expression is not followed:")
+		}
+	}
+	var stmt func(s ast.Stmt)
+	stmt = func(s ast.Stmt) {
+		if s == nil || why != "" {
+			return
+		}
+		switch x := s.(type) {
+		case *ast.BlockStmt:
+			for _, y := range x.List {
+				stmt(y)
+			}
+		case *ast.AssignStmt:
+			switch x.Tok {
+			case token.ASSIGN, token.DEFINE, token.OR_ASSIGN:
+			case token.SHL_ASSIGN, token.SHR_ASSIGN, token.AND_ASSIGN:
+				if !isConst(x.Rhs[0]) {
+					fail(x, "variable operand")
+				}
+			default:
+				fail(x, "assignment operator")
+			}
+			if len(x.Lhs) != len(x.Rhs) {
+				fail(x, "tuple assignment")
+			}
+			for _, l := range x.Lhs {
+				expr(l)
+			}
+			for _, r := range x.Rhs {
+				expr(r)
+			}
+		case *ast.DeclStmt:
+			gd, ok := x.Decl.(*ast.GenDecl)
+			if !ok || gd.Tok != token.VAR {
+				fail(x, "declaration")
 				return
 			}
+			for _, sp := range gd.Specs {
+				for _, v := range sp.(*ast.ValueSpec).Values {
+					expr(v)
+				}
+			}
+		case *ast.RangeStmt:
+			if _, isId := ast.Unparen(x.X).(*ast.Ident); !isId {
+				fail(x.X, "range operand")
+			}
+			stmt(x.Body)
+		case *ast.ForStmt:
+			if f.CanonLoop(x) == nil {
+				fail(x, "loop")
+			}
+			stmt(x.Body)
+		case *ast.ReturnStmt:
+			for _, r := range x.Results {
+				if _, isId := ast.Unparen(r).(*ast.Ident); !isId {
+					fail(r, "returned expression")
+				}
+			}
+		case *ast.EmptyStmt:
+		default:
+			fail(s, "statement is not followed:")
 		}
-		first := true
-		ast.Inspect(n, func(ch ast.Node) bool {
-			if first {
-				first = false
-				return true
-			}
-			if ch != nil {
-				visit(ch, inIndex)
-			}
-			return false
-		})
 	}
-	visit(f.Body, false)
+	stmt(f.Body)
 	return why
 }
 
-func c19ProbeConv(c *kit.Ctx, f *kit.Func, decoder bool, T types.Type) *convModel {
+func c19ProbeConv(c *kit.Ctx, f *kit.Func, decoder bool, T types.Type) (*convModel, string) {
 	if why := c19Bitwise(f); why != "" {
-		return nil
+		return nil, why
 	}
 	info := f.Info()
 	in := f.Params()[0]
@@ -114,7 +266,7 @@ func c19ProbeConv(c *kit.Ctx, f *kit.Func, decoder bool, T types.Type) *convMode
 		return true
 	})
 	if n != 1 || rs == nil || rs.Key == nil {
-		return nil
+		return nil, "not a single counted loop"
 	}
 	var ret types.Object
 	ast.Inspect(f.Body, func(x ast.Node) bool {
@@ -124,8 +276,35 @@ func c19ProbeConv(c *kit.Ctx, f *kit.Func, decoder bool, T types.Type) *convMode
 		return true
 	})
 	if ret == nil {
-		return nil
+		return nil, "the result is not a local"
 	}
+	// the result is a slice made in this function (unstored elements are zero)
+	fresh := false
+	nDefs := 0
+	ast.Inspect(f.Body, func(x ast.Node) bool {
+		as, ok := x.(*ast.AssignStmt)
+		if !ok {
+			return true
+		}
+		for i, l := range as.Lhs {
+			if kit.ObjOf(info, l) != ret {
+				continue
+			}
+			if _, isId := ast.Unparen(l).(*ast.Ident); !isId {
+				continue
+			}
+			nDefs++
+			if len(as.Lhs) == len(as.Rhs) {
+				if call, isCall := ast.Unparen(as.Rhs[i]).(*ast.CallExpr); isCall {
+					if bi, isB := kit.Callee(info, call).(*types.Builtin); isB && bi.Name() == "make" {
+						fresh = true
+					}
+				}
+			}
+		}
+		return true
+	})
+	fresh = fresh && nDefs == 1
 	cm.lenOK = c19LenShape(f, kit.AnalyseBounds(c.P, f), rs, ret, in, decoder)
 	// run evaluates f with the given input elements and returns the elements stored into ret
 	nIn, nOut := int64(4), int64(2)
@@ -166,18 +345,21 @@ func c19ProbeConv(c *kit.Ctx, f *kit.Func, decoder bool, T types.Type) *convMode
 		}
 		for i := int64(0); i < nOut; i++ {
 			if _, stored := out[i]; !stored {
-				return nil, false
+				if !fresh {
+					return nil, false
+				}
+				out[i] = 0 // never stored: still the zero value make left there
 			}
 		}
 		return out, true
 	}
 	// zero in, zero out
 	if out, ok := run(map[int64]int64{}); !ok {
-		return nil
+		return nil, "the evaluation of the function is not conclusive"
 	} else {
 		for _, v := range out {
 			if v != 0 {
-				return nil
+				return nil, "zero input gives a non-zero result"
 			}
 		}
 	}
@@ -204,7 +386,7 @@ func c19ProbeConv(c *kit.Ctx, f *kit.Func, decoder bool, T types.Type) *convMode
 			}
 			out, ok := run(elems)
 			if !ok {
-				return nil
+				return nil, "the evaluation of the function is not conclusive"
 			}
 			hit := -1
 			for idx, v := range out {
@@ -214,28 +396,28 @@ func c19ProbeConv(c *kit.Ctx, f *kit.Func, decoder bool, T types.Type) *convMode
 				pb, single := onebit(v)
 				if !single || hit >= 0 {
 					cm.bad = fmt.Sprintf("a single input bit spreads over several output bits (%#x at element %d)", v, idx)
-					return cm
+					return cm, ""
 				}
 				if decoder {
 					if idx != val {
 						cm.bad = fmt.Sprintf("register pair %d ends up in value %d", val, idx)
-						return cm
+						return cm, ""
 					}
 					hit = pb // value bit
 				} else {
 					if idx/2 != val {
 						cm.bad = fmt.Sprintf("value %d ends up in register %d", val, idx)
-						return cm
+						return cm, ""
 					}
 					if pb > 15 {
-						return nil
+						return nil, "a register receives more than 16 bits"
 					}
 					hit = int(idx%2)*16 + pb // register bit
 				}
 			}
 			if hit < 0 {
 				cm.bad = fmt.Sprintf("input bit %d is dropped", b)
-				return cm
+				return cm, ""
 			}
 			if decoder {
 				maps[val][hit] = b // value bit hit comes from register bit b
@@ -245,7 +427,7 @@ func c19ProbeConv(c *kit.Ctx, f *kit.Func, decoder bool, T types.Type) *convMode
 		}
 	}
 	if maps[0] != maps[1] {
-		return nil
+		return nil, "consecutive values are converted differently"
 	}
 	cm.bits = maps[0]
 	// a bijection?
@@ -253,10 +435,10 @@ func c19ProbeConv(c *kit.Ctx, f *kit.Func, decoder bool, T types.Type) *convMode
 	for _, r := range cm.bits {
 		if seen[r] {
 			cm.bad = "two value bits share one register bit"
-			return cm
+			return cm, ""
 		}
 		seen[r] = true
 	}
 	cm.bytePerm()
-	return cm
+	return cm, ""
 }
